@@ -2,6 +2,16 @@ package main
 
 // Record-level part of C10: model records, the families, and the evaluation of one
 // record on gocoin's plain (U) and compressed (C) record formats.
+//
+// Mutants this check must kill (patches in /verif/mutants, each verified in a scratch
+// worktree against the quick tier; the new key(s) each one produces):
+//   C10-amount-exponent-limit            CompressAmount strips 10 zeros       -> amount/compress-roundtrip-mismatch, recC/amount-mismatch
+//   C10-decompress-amount-digit          DecompressAmount drops digit 9        -> amount/compress-roundtrip-mismatch, recC/amount-mismatch
+//   C10-onerecc-skip-wide-length         OneUtxoRecC skips 1 byte of a 3-byte length -> oneC/live-vout-not-found, oneC/amount-mismatch, snap/tool/unspentget-*
+//   C10-compressed-coinbase-bit-dropped  SerializeC loses the coinbase flag    -> recC/coinbase-flag-mismatch, oneC/header-fields-mismatch
+//   C10-save-omits-compressed-flag       snapshot header without format bit    -> snap/tool/compressed-flag-mismatch, snap/tool/record-mismatch-after-reload
+//   C10-p2sh-hash-shifted                CompressScript copies scr[3:23]       -> recC/script-changed/p2sh
+//   C10-plain-index-width-one            SerializeU sizes an index >= 253 as 1 byte -> recU/panic/SerializeU:...
 
 import (
 	"bytes"
@@ -359,7 +369,7 @@ func recordFamilies(thorough bool) []recSpec {
 		for si, set := range sets {
 			hs := heights
 			if n > 254 {
-				hs = []uint32{0, 65536}
+				hs = []uint32{0, 253, 65536}
 			}
 			for _, h := range hs {
 				for _, cb := range []bool{false, true} {
@@ -379,9 +389,9 @@ func recordFamilies(thorough bool) []recSpec {
 		}
 	}
 	// F2: scripts x amounts x coinbase x layout
-	am := []uint64{0, 1, 546, 21e14}
+	am := []uint64{0, 1, 546, 21e14, 0xfc, 0xfd, 0xffff, 0x10000, 123456789, 5e9, 1e8, 99999999, 10, 90, 900, 1<<32 - 1}
 	if thorough {
-		am = append(am, 0xfc, 0xfd, 0xffff, 0x10000, 123456789, 5e9, 1e8, 99999999, 10, 90, 900, 1<<32 - 1)
+		am = append(am, 0x100000000, 2, 9, 11, 99, 101, 1e3, 1e9, 1e10, 1e15, 2099999997690000, 1<<53+1)
 	}
 	for _, s := range scripts {
 		for _, a := range am {
@@ -408,9 +418,9 @@ func recordFamilies(thorough bool) []recSpec {
 		}
 	}
 	// F3: amounts
-	maxD := uint64(1000)
+	maxD := uint64(10000)
 	if thorough {
-		maxD = 20000
+		maxD = 100000
 	}
 	for _, a := range amountFamily(maxD) {
 		for _, c := range []string{"p2pkh", "plain-len1-first0"} {
